@@ -6,5 +6,5 @@ rm -rf $T; mkdir -p $T; git -C /repo archive HEAD | tar -x -C $T
 rm -rf $V; mkdir -p $V; ln -s /verif/mutants $V/mutants; cp /verif/known_findings.txt $V/
 PROPS="$*"; [ -z "$PROPS" ] && PROPS=$(seq -f 'C%02g' 1 20)
 for id in $PROPS; do
-  /tmp/rv-dev -property $id -tier thorough -repo $T -verif $V 2>&1 | grep -E "^resverif|^VIOLATION|SELFTEST-DEGRADED" | cut -c1-400
+  /tmp/rv-bat -property $id -tier thorough -repo $T -verif $V 2>&1 | grep -E "^resverif|^VIOLATION|SELFTEST-DEGRADED" | cut -c1-400
 done
